@@ -12,6 +12,8 @@ import (
 func init() {
 	f := "internal/token/serialize.go"
 	register(&Property{ID: "C23", Run: runC23, Mutants: []Mutant{
+		{Name: "two serialized fields share a JSON name", File: "internal/token/position.go", Old: "\tLine, Column int", New: "\tLine   int `json:\"line\"`\n\tColumn int `json:\"line\"`", Expect: "serialized-name-unique :: token.lineInfo"},
+		{Name: "nil-check panic block shared per function", File: "internal/ssa/emit.go", Old: "\tpanicInstr := &Panic{X: panicMsg}\n\tpanicInstr.pos = pos\n\tf.emit(panicInstr)", New: "\tif len(panicBlock.Instrs) == 0 {\n\t\tpanicInstr := &Panic{X: panicMsg}\n\t\tpanicInstr.pos = pos\n\t\tf.emit(panicInstr)\n\t}", Expect: "panic-position-per-site :: internal/ssa.emitNilCheck"},
 		{Name: "line table not serialized", File: f, Old: "\t\t\tLines: append([]int(nil), f.lines...),\n", New: "", Expect: "position-field-coverage :: File.lines"},
 		{Name: "size restored from base", File: f, Old: "\t\t\tsize:  f.Size,", New: "\t\t\tsize:  f.Base,", Expect: "position-field-coverage :: File.size"},
 		{Name: "alternative positions (//line infos) restored from nothing", File: f, Old: "\t\t\tinfos: f.Infos,\n", New: "", Expect: "position-field-coverage :: File.infos"},
@@ -26,12 +28,16 @@ func runC23(c *Ctx) {
 		"(2) the position string compiled into a run-time panic (and assert) is Fset.Position(<the panicking instruction>.Pos()).String(), pushed before the call to $runtime.panic_. " +
 		"NOT decided: the line-table arithmetic itself (binary search, line/column computation), and that the host prints the emitted string."
 	c.Trusted = []string{"go/packages, go/types (x/tools v0.29.0)"}
-	p := c.Load(LoadOpt{Light: true}, "./internal/token", "./internal/backends/compiler_wat")
+	p := c.Load(LoadOpt{Light: true}, "./internal/token", "./internal/backends/compiler_wat", "./internal/ssa")
 	const r1, r2 = "position-field-coverage", "panic-position-provenance"
 	tk := p.MustPkg(r1, "internal/token")
 	cw := p.MustPkg(r2, "internal/backends/compiler_wat")
 	if tk == nil || cw == nil {
 		return
+	}
+	c23Extra(c, p, tk)
+	if sp := p.MustPkg("panic-position-per-site", "internal/ssa"); sp != nil {
+		c23PanicSites(c, p, sp)
 	}
 	// P: fields read by position functions
 	posFuncs := map[string]bool{"File.position": true, "File.unpack": true, "File.Offset": true, "File.Pos": true, "File.Line": true, "File.PositionFor": true, "File.Position": true, "File.LineCount": true,
